@@ -69,7 +69,7 @@ static void run_trunc(hctx* h, fcase* fc) {
 
 /* ---------- failing sink ---------- */
 #define SINK_MAXEV 4096
-typedef struct { long byte_budget, op_budget; int transient; long sunk; int failed; uint8_t* data; size_t cap;
+typedef struct { long byte_budget, op_budget; int transient; int terr; long sunk; int failed; uint8_t* data; size_t cap;
                  int call;                       /* index of the writer API call in progress (close = nsteps, the harness's own flush/close = nsteps + 1) */
                  int nev; int ev_call[SINK_MAXEV]; long ev_n[SINK_MAXEV], ev_r[SINK_MAXEV]; } sink_t;
 static ssize_t sink_write_(void* c, const char* b, size_t n);
@@ -84,7 +84,9 @@ static ssize_t sink_write(void* c, const char* b, size_t n) {
 }
 static ssize_t sink_write_(void* c, const char* b, size_t n) {
     sink_t* s = (sink_t*)c;
-    if (s->op_budget == 0) { s->failed = 1; errno = EIO; if (s->transient) s->op_budget = -1; return 0; }   /* transient: only this one operation fails */
+    /* transient: only this one operation fails - with EIO, or with an errno some callers treat as "try again" (EINTR, EAGAIN):
+     * stdio has dropped what it could not deliver either way, so the failure must still surface */
+    if (s->op_budget == 0) { static const int terrs[] = { EIO, EINTR, EAGAIN, ENOSPC }; s->failed = 1; errno = s->transient ? terrs[s->terr & 3] : EIO; if (s->transient) s->op_budget = -1; return 0; }
     if (s->op_budget > 0) s->op_budget--;
     size_t take = n;
     if (s->byte_budget >= 0 && (long)take > s->byte_budget) take = (size_t)s->byte_budget;
@@ -111,7 +113,7 @@ static void run_sink(hctx* h, fcase* fc, int kind, long k, const uint8_t* good, 
         (void)!add_case_column(sc, &fc->cols[i]);
     carquet_writer_options_t wo; carquet_writer_options_init(&wo);
     wo.compression = (carquet_compression_t)fc->codec; wo.page_size = fc->page;
-    static sink_t s; memset(&s, 0, sizeof s); s.byte_budget = kind == 0 ? k : -1; s.op_budget = (kind == 1 || kind == 4) ? k : -1; s.transient = kind == 4;
+    static sink_t s; memset(&s, 0, sizeof s); s.byte_budget = kind == 0 ? k : -1; s.op_budget = (kind == 1 || kind == 4) ? k : -1; s.transient = kind == 4; s.terr = (int)((k + (long)bufmode) & 3);
     FILE* fp = NULL; carquet_writer_t* w = NULL;
     char fpath[128]; snprintf(fpath, sizeof fpath, "/tmp/verif_c18_%d_fc.parquet", (int)getpid());
     if (kind == 3) { w = carquet_writer_create("/dev/full", sc, &wo, &err); }
@@ -224,12 +226,20 @@ static void run_abort_limited(hctx* h, fcase* fc, int at, long lim) {
  * and abort may be unreachable (LeakSanitizer's recoverable check; the table of completed row groups grows at the 5th, 9th,
  * 17th row group, so long histories are part of the cases) */
 extern int __lsan_do_recoverable_leak_check(void) __attribute__((weak));
+static int g_abort_longpath;    /* > 0: the output file lies that many 60-character directories deep (a path of 100 .. 700 bytes) */
 static void run_abort(hctx* h, fcase* fc, int at) {
-    char path[128]; snprintf(path, sizeof path, "/tmp/verif_c18_%d_ab.parquet", (int)getpid());
+    char path[1024]; snprintf(path, sizeof path, "/tmp/verif_c18_%d_ab.parquet", (int)getpid());
+    char top[64]; top[0] = 0;
+    if (g_abort_longpath > 0) {
+        snprintf(top, sizeof top, "/tmp/verif_c18_%d_deep", (int)getpid());
+        int k = snprintf(path, sizeof path, "%s", top); mkdir(path, 0700);
+        for (int d = 0; d < g_abort_longpath && k < 900; d++) { k += snprintf(path + k, sizeof path - (size_t)k, "/d%02d_%s", d, "abcdefghijklmnopqrstuvwxyzabcdefghijklmnopqrstuvwxyzabcd"); mkdir(path, 0700); }
+        snprintf(path + k, sizeof path - (size_t)k, "/out.parquet");
+    }
     fprintf(h->out, "abort");
     { FILE* save = h->out; char* mem = NULL; size_t msz = 0; FILE* ms = open_memstream(&mem, &msz);
       h->out = ms; print_case(h, fc); fclose(ms); h->out = save; fputs(mem + 2, h->out); free(mem); }
-    fprintf(h->out, " at=%d", at); h_call(h);
+    fprintf(h->out, " at=%d", at); if (g_abort_longpath > 0) fprintf(h->out, " deep=%d", g_abort_longpath); h_call(h);
     carquet_error_t err; memset(&err, 0, sizeof err);
     carquet_schema_t* sc = carquet_schema_create(&err);
     for (int i = 0; i < fc->ncols; i++)
@@ -249,13 +259,15 @@ static void run_abort(hctx* h, fcase* fc, int at) {
             free(v); free(d); free(rl);
         }
     }
+    int w_created = w != NULL;
     if (w) carquet_writer_abort(w);
     w = NULL;
     struct stat sb; int exists = stat(path, &sb) == 0;
     carquet_schema_free(sc); sc = NULL;
     int leak = __lsan_do_recoverable_leak_check ? __lsan_do_recoverable_leak_check() : 0;
-    fprintf(h->out, " | removed=%d p_no_file=%d p_no_leak=%d\n", !exists, !exists, !leak);
+    fprintf(h->out, " | created=%d removed=%d p_no_file=%d p_no_leak=%d\n", w_created, !exists, !exists, !leak);
     if (exists) unlink(path);
+    if (top[0]) { char cmd[160]; snprintf(cmd, sizeof cmd, "rm -rf %s", top); if (system(cmd) != 0) { /* best effort */ } }
     h->n_lines++;
 }
 /* abort of a writer with a WIDE schema after `nrg` completed row groups: the per-row-group metadata (one entry per column) is
@@ -467,6 +479,7 @@ static void gen_c18(hctx* h) {
             free(gb); free_case(&big);
         }
         for (int at = 0; at <= fc.nsteps; at++) run_abort(h, &fc, at);
+        if (i < 3) { static const int deep[] = { 4, 5, 10 }; g_abort_longpath = deep[i]; run_abort(h, &fc, 0); run_abort(h, &fc, fc.nsteps / 2); run_abort(h, &fc, fc.nsteps); g_abort_longpath = 0; }
         { static const long lims[] = { 0, 4, 16, 100 };
           for (int li = 0; li < 4; li++) for (int at = 0; at <= fc.nsteps; at += (h->thorough ? 1 : 1 + fc.nsteps / 4)) run_abort_limited(h, &fc, at, lims[li]); }
         free(good); free_case(&fc);
@@ -506,7 +519,7 @@ static int replay_c18(hctx* h, const h_line* l) {
     fcase fc; if (parse_case(l, &fc)) { fprintf(stderr, "bad case\n"); return 1; }
     if (!strcmp(l->op, "trunc")) run_trunc(h, &fc);
     else if (!strcmp(l->op, "abort") && h_in(l, "lim")) run_abort_limited(h, &fc, (int)h_ll(h_in(l, "at")), (long)h_ll(h_in(l, "lim")));
-    else if (!strcmp(l->op, "abort")) run_abort(h, &fc, (int)h_ll(h_in(l, "at")));
+    else if (!strcmp(l->op, "abort")) { g_abort_longpath = h_in(l, "deep") ? (int)h_ll(h_in(l, "deep")) : 0; run_abort(h, &fc, (int)h_ll(h_in(l, "at"))); g_abort_longpath = 0; }
     else { size_t ng; uint8_t* good = good_bytes(&fc, &ng); run_sink(h, &fc, (int)h_ll(h_in(l, "kind")), (long)h_ll(h_in(l, "k")), good, ng, (int)h_ll(h_in(l, "buf"))); free(good); }
     free_case(&fc); return 1;
 }
